@@ -47,7 +47,7 @@ def run_cbmc(cfile, incdirs, defines=(), unwind=None, unwindset=None, function='
            '--signed-overflow-check', '--drop-unused-functions', '--no-malloc-may-fail', '--no-standard-checks', '--bounds-check', '--pointer-check',
            '--div-by-zero-check', '--malloc-fail-null'] if False else \
           ['cbmc', cfile, '--function', function, '--json-ui', '--unwinding-assertions', '--pointer-overflow-check', '--undefined-shift-check',
-           '--signed-overflow-check', '--drop-unused-functions', '--no-malloc-may-fail']
+           '--signed-overflow-check', '--drop-unused-functions', '--no-malloc-may-fail', '--object-bits', '11']
     if trace: cmd.append('--trace')
     for d in incdirs: cmd += ['-I', d]
     for d in defines: cmd += ['-D', d]
@@ -94,6 +94,14 @@ def trace_inputs(prop, prefix='in_'):
         lhs = st.get('lhs', '')
         if not lhs.startswith(prefix): continue
         v = st.get('value', {})
+        mo = re.match(r'(\w+)\[(\d+)l?\]$', lhs)
+        if mo:    # element assignment: merge into the array value
+            arr = vals.get(mo.group(1))
+            if not isinstance(arr, list): arr = []
+            i = int(mo.group(2))
+            while len(arr) <= i: arr.append(0)
+            arr[i] = decode_value(v); vals[mo.group(1)] = arr
+            continue
         vals[lhs] = decode_value(v)
     return vals
 
@@ -141,8 +149,8 @@ def classify(res):
     res['witness'] = {'reachable': wit_ok, 'unreachable': wit_bad}
     if unwind_bad:
         return 'inconclusive', 'bound exceeded / unmodelled: ' + '; '.join(sorted({p.get('description', '') for p in unwind_bad}))[:800], None
-    if wit_bad and not bad:
-        return 'broken', 'vacuous harness: witness not reachable: ' + '; '.join(wit_bad), None
+    if not wit_ok and not bad:
+        return 'broken', 'vacuous harness: no witness reachable: ' + '; '.join(wit_bad), None
     if bad:
         # prefer harness assertions over generic checks when choosing the reported property
         bad.sort(key=lambda p: (0 if 'assertion' in p.get('property', '') else 1))
@@ -267,9 +275,27 @@ def replay_native(m, harness_file, function, inputs, defines=(), timeout=120, sa
     return False, 'all harness assertions hold on the real code for %s(%s)' % (function, invals[:500])
 
 
+def _dblval(v):
+    return {'bits': '0x%016x' % struct.unpack('>Q', struct.pack('>d', v))[0], 'double_hex': float.hex(v), 'repr': repr(v)}
+
 def replay(rp, wrapper, use_wrapper_obj=False):
-    """generic replay entry for harness modules"""
+    """generic replay entry for harness modules.  Where a callee was replaced by a contract stub whose result the harness records
+    (in_lonn = AngNormalize(in_lon)), the solver's argument is only one of the values the contract allows; if it does not
+    reproduce, the canonical representatives of the recorded result (lonn, lonn +- 360, lonn + 720) are tried as well."""
     cex = rp['cex']
     m = irparse.parse_module(build.compile_ir(build.wrapper(wrapper)))
-    return replay_native(m, os.path.join(VERIF, cex['harness']), cex['function'], cex['inputs'], defines=cex.get('defines', ()),
-                         wrapper_src=build.wrapper(wrapper) if use_wrapper_obj else None)
+    inputs = dict(cex['inputs'])
+    tries = [inputs]
+    if 'in_lon' in inputs and 'in_lonn' in inputs:
+        try:
+            ln = dbl(inputs['in_lonn'])
+            if ln == ln and abs(ln) <= 180:
+                for d in (0.0, 360.0, -360.0, 720.0):
+                    t = dict(inputs); t['in_lon'] = _dblval(ln + d); tries.append(t)
+        except Exception: pass
+    last = (None, 'no replay attempted')
+    for t in tries:
+        last = replay_native(m, os.path.join(VERIF, cex['harness']), cex['function'], t, defines=cex.get('defines', ()),
+                             wrapper_src=build.wrapper(wrapper) if use_wrapper_obj else None)
+        if last[0]: return last
+    return last
